@@ -2,7 +2,7 @@
 oracle (used by rules_c02/c03/c04/c05/c06/c07).  Every `case_*` function runs
 one shape and returns None if the expressions are identical, else a
 (tag, message) pair."""
-from . import affine, modes, report, sponge
+from . import affine, modes, repo, report, sponge
 from .affine import Ptr, Unsupported, to_int
 from .sponge import cbytes, sym_bytes
 
@@ -453,9 +453,141 @@ def case_aead_inplace(m, layout, alg, adlen, mlen):
 
 
 # ---------------------------------------------------------------------------
+# C07.D6: incremental call histories against the library's own one-shot function
+def partitions(n, rate):
+    """a spread of partitions of n bytes: single call, empty calls, pieces shorter
+    than / equal to / longer than the rate, calls that start in the middle of a
+    rate block and cross one or several block boundaries"""
+    out = [[n], [0, n, 0]]
+    if n >= 2:
+        out.append([1, n - 1])
+        out.append([n - 1, 1])
+        out.append([n // 2, 0, n - n // 2])
+    if n >= 3:
+        out.append([1] * n if n <= 12 else [1, 1, 1, n - 3])
+    for first in (3, rate - 1, rate, rate + 1, rate + 4):
+        if 0 < first < n:
+            rest = n - first
+            out.append([first, rest])
+            if rest > rate + 2:
+                out.append([first, rate + 2, rest - rate - 2])
+            if rest > 2 * rate + 1:
+                out.append([first, 0, 2 * rate + 1, rest - 2 * rate - 1])
+    for step in (5, 7, rate + 3):
+        if step < n:
+            out.append([step] * (n // step) + ([n % step] if n % step else []))
+    seen, res = set(), []
+    for c in out:
+        if tuple(c) not in seen and sum(c) == n:
+            seen.add(tuple(c))
+            res.append(c)
+    return res
+
+
+CHUNK_FAMILIES = {
+    # name: (rate in, rate out, has input, variable output)
+    "hash": (8, 8, True, False), "hasha": (8, 8, True, False),
+    "xof": (8, 8, True, True), "xofa": (8, 8, True, True),
+    "prf": (32, 16, True, True),
+    "kmac": (8, 8, True, True), "kmaca": (8, 8, True, True),
+    "kdf": (8, 8, False, True), "kdfa": (8, 8, False, True),
+    "hmac": (8, 8, True, False), "hmaca": (8, 8, True, False),
+    "hkdf": (32, 32, False, True), "hkdfa": (32, 32, False, True),
+}
+
+
+def _chunk_run(R, fam, inlen, outlen, ch_in, ch_out):
+    """ch_in / ch_out None = the one-shot function; returns the output bits"""
+    oneshot = ch_in is None
+    K, M, C = R.buf("K", 16), R.buf("M", inlen), R.buf("C", 5)
+    out = R.out(outlen)
+    if fam in ("hash", "hasha"):
+        if oneshot:
+            R.call("ascon_" + fam, out, M, inlen)
+        else:
+            st = R.obj(R.struct_size("ascon_%s_state_t" % fam))
+            R.call("ascon_%s_init" % fam, st)
+            _absorb_chunks(R, "ascon_%s_update" % fam, st, M, inlen, ch_in)
+            R.call("ascon_%s_finalize" % fam, st, out)
+    elif fam in ("xof", "xofa"):
+        st = R.obj(R.struct_size("ascon_%s_state_t" % fam))
+        R.call("ascon_%s_init" % fam, st)
+        if oneshot:
+            R.call("ascon_%s_absorb" % fam, st, M, inlen)
+            R.call("ascon_%s_squeeze" % fam, st, out, outlen)
+        else:
+            _absorb_chunks(R, "ascon_%s_absorb" % fam, st, M, inlen, ch_in)
+            _squeeze_chunks(R, "ascon_%s_squeeze" % fam, st, out, ch_out)
+    elif fam == "prf":
+        if oneshot:
+            R.call("ascon_prf", out, outlen, M, inlen, K)
+        else:
+            st = R.obj(R.struct_size("ascon_prf_state_t"))
+            R.call("ascon_prf_init", st, K)
+            _absorb_chunks(R, "ascon_prf_absorb", st, M, inlen, ch_in)
+            _squeeze_chunks(R, "ascon_prf_squeeze", st, out, ch_out)
+    elif fam in ("kmac", "kmaca"):
+        if oneshot:
+            R.call("ascon_" + fam, K, 16, M, inlen, C, 5, out, outlen)
+        else:
+            st = R.obj(R.struct_size("ascon_%s_state_t" % fam))
+            R.call("ascon_%s_init" % fam, st, K, 16, C, 5, outlen)
+            _absorb_chunks(R, "ascon_%s_absorb" % fam, st, M, inlen, ch_in)
+            _squeeze_chunks(R, "ascon_%s_squeeze" % fam, st, out, ch_out)
+    elif fam in ("kdf", "kdfa"):
+        if oneshot:
+            R.call("ascon_" + fam, out, outlen, K, 16, C, 5)
+        else:
+            st = R.obj(R.struct_size("ascon_%s_state_t" % fam))
+            R.call("ascon_%s_init" % fam, st, K, 16, C, 5, outlen)
+            _squeeze_chunks(R, "ascon_%s_squeeze" % fam, st, out, ch_out)
+    elif fam in ("hmac", "hmaca"):
+        if oneshot:
+            R.call("ascon_" + fam, out, K, 16, M, inlen)
+        else:
+            st = R.obj(R.struct_size("ascon_%s_state_t" % fam))
+            R.call("ascon_%s_init" % fam, st, K, 16)
+            _absorb_chunks(R, "ascon_%s_update" % fam, st, M, inlen, ch_in)
+            R.call("ascon_%s_finalize" % fam, st, K, 16, out)
+    elif fam in ("hkdf", "hkdfa"):
+        if oneshot:
+            R.call("ascon_" + fam, out, outlen, K, 16, M, inlen, C, 5)
+        else:
+            st = R.obj(R.struct_size("ascon_%s_state_t" % fam))
+            R.call("ascon_%s_extract" % fam, st, K, 16, M, inlen)
+            pos = 0
+            for c in ch_out:
+                R.call("ascon_%s_expand" % fam, st, C, 5, Ptr(out.obj, pos), c)
+                pos += c
+    else:
+        raise ValueError(fam)
+    return R.read(out, outlen)
+
+
+def case_chunk(m, layout, fam, inlen, outlen):
+    """every partition of input and output gives the bytes of the one-shot call"""
+    rin, rout, has_in, var_out = CHUNK_FAMILIES[fam]
+    if not var_out:
+        outlen = 32
+    want = _chunk_run(modes.Run(m, layout), fam, inlen, outlen, None, None)
+    pin = partitions(inlen, rin) if has_in and fam not in ("hkdf", "hkdfa") else [[inlen]]
+    pout = partitions(outlen, rout) if var_out else [[outlen]]
+    # all input partitions with the plain output, all output partitions with two input partitions
+    pairs = [(a, pout[0]) for a in pin] + [(a, b) for b in pout[1:] for a in (pin[0], pin[-1])]
+    for ch_in, ch_out in pairs:
+        got = _chunk_run(modes.Run(m, layout), fam, inlen, outlen, ch_in, ch_out)
+        d = modes.first_diff(got, want)
+        if d:
+            return ("chunking", "input passed as %s and output requested as %s: result differs from the one-shot call at %s" % (
+                ch_in, ch_out, d))
+    return None
+
+
+# ---------------------------------------------------------------------------
 def run_cases(prop, rid, tier, cases, worker):
     """cases: list of picklable tuples starting with (json, cname, layout, ...)"""
-    chunks = [cases[k:k + 6] for k in range(0, len(cases), 6)]
+    per = max(1, min(6, -(-len(cases) // (2 * repo.JOBS))))
+    chunks = [cases[k:k + per] for k in range(0, len(cases), per)]
     res = modes.parallel([(prop, rid, tier, ch, worker) for ch in chunks], _dispatch)
     return res
 
@@ -480,6 +612,7 @@ def _dispatch(item):
         if bad:
             f = m.funcs.get(src_fn)
             r.violation(rid, "%s:%s" % (src_fn, bad[0]), f.src if f is not None else src_fn,
+                        ("%s: %s [%s]" % (src_fn, bad[1], desc)) if bad[0] == "chunking" else
                         "%s differs from its specification for the shape [%s]: %s" % (src_fn, desc, bad[1]),
                         config=cname, detail={"shape": desc})
         else:
